@@ -83,7 +83,8 @@ func DiskOp(kind, path string) error {
 	if s.cfg.Trace {
 		s.Logf("disk %s#%d %s %s", n.Name, n.DiskOps, kind, shortPath(path))
 	} else {
-		s.mixHash(uint64(n.DiskOps)<<16 | uint64(len(kind))<<8 | uint64(len(path)&0xff))
+		s.mixHash(uint64(n.DiskOps)<<16 | uint64(len(kind)))
+		s.hashString(shortPath(path))
 	}
 	if n.CrashAt != 0 && n.DiskOps == n.CrashAt {
 		s.Fault("crash")
